@@ -13,6 +13,7 @@ Correspondence / pipeline:
             (c) `tripleOK` (Lean predicate) on every range entity produced over the Python-supported DateTime Specs inputs
                 of every culture (same run as C11: cached)."""
 import datetime
+import os
 
 from lib import common, recog, dtpipe, dtcorpus, periodcorr
 from lib import durationcorr
@@ -65,21 +66,68 @@ REF = datetime.datetime(2019, 6, 12, 10, 0, 0)
 NS = [1, 2, 3, 7, 30, 365, 1000, 5000]
 
 
-def duration_rows():
-    rows = []
+def duration_rows(ctx=None):
+    """(culture, spelling, unit, seconds, the culture's duration parser) for every spelling the committed contract
+    /verif/contracts/C10durations.json demands (written once from the unchanged tree by harness/mkcontract_c10.py and
+    reviewed: the expectation does not come from the tree under test, so an edit of a unit table cannot silently shrink
+    or bend what is demanded).  The tree's own tables are compared with the contract: a contract spelling the tree no
+    longer maps (or maps to another unit / length) is a correspondence break AND is still demanded; a key of the tree the
+    contract does not know is demanded as before (the tree claims it) and listed in the evidence.  Everything that is not
+    turned into a row is counted by reason in the evidence (`duration_rows`)."""
+    import json
+    with open(os.path.join(common.VERIF, 'contracts', 'C10durations.json'), encoding='utf-8') as f:
+        contract = json.load(f)
+    skipped = {}
+
+    def skip(reason, n=1):
+        skipped[reason] = skipped.get(reason, 0) + n
+    rows, unknown, drift = [], [], []
+    seen_cultures = set()
     for (rec, mt, cul) in recog.all_pairs():
         if rec != 'DateTime':
             continue
+        seen_cultures.add(cul)
         m = recog.get_model(rec, mt, cul)
         dp = getattr(m.parser.config, 'duration_parser', None)
         cfg = getattr(dp, 'config', None)
-        um = getattr(cfg, 'unit_map', None)
-        uv = getattr(cfg, 'unit_value_map', None)
-        if not um or not uv:
+        um = getattr(cfg, 'unit_map', None) or {}
+        uv = getattr(cfg, 'unit_value_map', None) or {}
+        want = contract['spellings'].get(cul, {})
+        notd = contract['not_demanded'].get(cul, {})
+        if cul in contract['cultures_without_table']:
+            skip('%s: %s' % (cul, contract['cultures_without_table'][cul]))
+            if um:
+                unknown.append('%s: the contract says this culture has no unit table, the tree has one' % cul)
+        elif not um or not uv or not hasattr(dp, 'parse_number_with_unit'):
+            drift.append((cul, None, 'the duration parser of the tree has no unit_map / unit_value_map; the contract lists %d '
+                          'spellings' % len(want)))
             continue
+        for k, (code, secs) in want.items():
+            if k not in um or um[k] != code or k not in uv or int(uv[k]) != secs:
+                drift.append((cul, k, 'contract %s = %s / %d s, tree unit_map %r, unit_value_map %r' % (
+                    k, code, secs, um.get(k), uv.get(k))))
+            rows.append((cul, k, code, secs, dp))
         for k in um:
-            if k in uv and um[k] in BASIC:
+            if k in want:
+                continue
+            if k in notd:
+                skip('%s: not demanded by the contract: %s' % (cul, notd[k].split(' (')[0].split(':')[0]))
+            elif k in uv and um[k] in BASIC:
+                unknown.append('%s: %r (%s) is in the tree, not in the contract: demanded all the same' % (cul, k, um[k]))
                 rows.append((cul, k, um[k], int(uv[k]), dp))
+            else:
+                unknown.append('%s: %r (%s) is in the tree, not in the contract, and is no N x basic unit' % (cul, k, um[k]))
+                skip('%s: tree key unknown to the contract and not a basic unit' % cul)
+    for cul in contract['spellings']:
+        if cul not in seen_cultures:
+            drift.append((cul, None, 'the contract lists the culture, the tree has no DateTime model for it'))
+    if ctx is not None:
+        ctx.extra['duration_rows'] = {'contract': 'contracts/C10durations.json', 'rows': len(rows),
+                                      'not_turned_into_rows_by_reason': dict(sorted(skipped.items())),
+                                      'tree_keys_unknown_to_the_contract': unknown[:40]}
+        for cul, k, why in drift:
+            ctx.report('correspondence', 'duration-contract:%s:%s' % (cul, k), 'unit table differs from the committed contract: ' + why,
+                       failing_input={'culture': cul, 'spelling': k, 'detail': why}, property_fails=False)
     return rows
 
 
@@ -89,10 +137,11 @@ def correspond(ctx):
     common.assert_tree_modules(recognizers_date_time)
     from recognizers_date_time.date_time.utilities import DateTimeFormatUtil, TimexUtil
     r = ctx.rng('c10')
-    rows = duration_rows()
+    rows = duration_rows(ctx)
 
     # ------------------------------------------------------------- unit level
     lines, expect = [], []
+    unit_skips = ctx.extra.setdefault('duration_unit_tie_skipped_by_reason', {})
     for (cul, sp, code, secs, dp) in rows:
         for n in (NS if ctx.thorough else [1, 7, 5000]):
             try:
@@ -101,9 +150,14 @@ def correspond(ctx):
             except Exception as e:
                 out = 'err:' + type(e).__name__
             if out == 'nosuccess':
-                continue   # the front end does not take this spelling after a number: not the arithmetic's business
+                # the front end does not take this spelling after a number: not the arithmetic's business (the pipeline
+                # oracle below demands the expression all the same); counted
+                unit_skips['parse_number_with_unit: no success'] = unit_skips.get('parse_number_with_unit: no success', 0) + 1
+                continue
             if res.success and not res.timex.lstrip('PT').startswith('%d%s' % (n, code[0])):
-                continue   # another path of the parser fired ("1 h and a quarter", half units): not N × unit
+                # another path of the parser fired ("1 h and a quarter", half units): not N × unit; counted
+                unit_skips['another path fired: ' + cul] = unit_skips.get('another path fired: ' + cul, 0) + 1
+                continue
             lines.append('durtimex\t%d\t%s' % (n, cps(code)))
             expect.append(out)
     for _ in range(2000 if ctx.thorough else 300):
@@ -143,6 +197,8 @@ def correspond(ctx):
     jobs, meta = [], []
     for (cul, sp, code, secs, dp) in rows:
         if cul in ('zh-cn', 'ja-jp'):
+            ctx.extra['duration_rows'].setdefault('pipeline_rows_skipped', {}).setdefault(cul, 0)
+            ctx.extra['duration_rows']['pipeline_rows_skipped'][cul] += 1
             continue
         ns = NS if ctx.thorough else [NS[(len(sp) + i * 3) % len(NS)] for i in range(3)]
         for n in sorted(set(ns)):
@@ -175,7 +231,10 @@ def correspond(ctx):
                     ok = True
         if ok:
             ctx.nontriv(('dur', j[0], j[1]))
+            ctx.passed('%s|%s' % (j[0], j[1]))         # stale where a committed failing set lists the input
         else:
+            # the recorded `duration:<culture>:<spelling>` findings carry failing sets (findings/sets/C10): exactly the
+            # `N <spelling>` inputs that fail on the unchanged tree; another N of the same spelling is a new violation
             ctx.report('property', 'duration:%s:%s' % (m[0], m[1]), '%s %r: %s; got %r' % (
                 m[0], j[1], why, got if isinstance(got, str) else [(e['text'], e['type_name'], e['values']) for e in got][:3]),
                 failing_input={'culture': m[0], 'query': j[1], 'expected_timex': wt, 'expected_value': wv,
@@ -291,9 +350,11 @@ def correspond(ctx):
     for j, e, (tn, vs) in zip(meta, ents, dtcorpus.evaluate_wf(ents)):
         bad = [v for v, (s, d, t) in zip(e['values'], vs) if not t]
         if bad:
-            ctx.report('property', 'triple:%s' % dtcorpus.input_key(j[0], j[1]), '%s %r (reference %s): %r' % (j[0], j[1], j[2], bad[:2]),
+            what = [(e['start'], e['end'], v.get('timex'), v.get('start'), v.get('end')) for v in bad]
+            ctx.report('property', 'triple:%s' % dtcorpus.input_key2(j[0], j[1], j[2], what),
+                       '%s %r (reference %s): %r' % (j[0], j[1], j[2], bad[:2]),
                        failing_input={'culture': j[0], 'query': j[1], 'reference': str(j[2]), 'values': bad[:2]},
-                       property_fails=True)
+                       property_fails=True, fallback=('triple:%s' % dtcorpus.input_key(j[0], j[1]),))
         else:
             ctx.nontriv(('specs', j[0], j[1]))
     ctx.extra['range_entities_with_triple_timex'] = len(ents)
